@@ -55,6 +55,7 @@ HOSTILE = {
     "hugeExponent": ["1e-3000000000...1", "1e-3000000000, 5...3", "1e3000000000", "0...1e-99999999999"],
     "deepNesting": ["(" * 1000 + "a" + ")" * 1000, "[" * 500 + "a" + "]" * 500, "((((" * 200],
     "lineContinuation": ["\\\ntarget < 3", "target \\\n < 3", "\\\n"],
+    "longList": [", ".join("c%05d" % number for number in range(20000)), ", ".join(str(2 * number) for number in range(2000))],  # (ranges compare every item with every other one: kept short)
     "builtinName": ["target or exit(7)", "target == id", "len", "target < len(dir())", "print"],
 }
 RULES = {"Integer": "0...99", "Decimal": "0...99.5", "Choice": "a, b", "Constant": "a", "DateTime": "YYYY-MM-DD", "Pattern": "a*",
